@@ -75,6 +75,9 @@ inline vf_chunks<R> vf_split3(const R& r) {
   size_t n = r.size();
   size_t m1 = vf_nondet_u32(), m2 = vf_nondet_u32();
   vf_assume(m1 <= m2 && m2 <= n);
+#if defined(VF_TBB_MAX_CHUNKS) && VF_TBB_MAX_CHUNKS == 2
+  vf_assume(m2 == n);  // a stated bound of the obligation: at most two chunks
+#endif
   // drop empty chunks
   c.k = 0;
   c.cut[0] = 0;
